@@ -19,7 +19,7 @@ import (
 // mutations, range-proof enumeration, keys that are prefixes of other keys, and more
 // than 100 unhashed updates (parallel hasher).
 
-const numCorpus = 11
+const numCorpus = 12
 
 func hx(s string) []byte {
 	b, err := hex.DecodeString(s)
@@ -398,6 +398,46 @@ func corpusCase(c *core.Case) {
 				h.fullGets(b2)
 				h.finalCheck(b2, false)
 				h.finalCheck(b, true)
+				done = true
+			})
+			if !done {
+				ok = false
+			}
+		}
+	case 11:
+		name = "large-single-flush"
+		// one Database.Commit that writes several hundred kB of nodes (the flush works in batches of about 100 kB),
+		// then a database restart: every entry must still be readable from disk alone; then a second large flush
+		// of overwrites and deletions, read back through a reopened trie
+		for _, n := range []int{1500, 4000} {
+			keys := make([][]byte, n)
+			for i := range keys {
+				keys[i] = detVal(r, 32)
+			}
+			h := corpusHist(c, r, name, keys, cfg{rootMode: 0})
+			done := false
+			h.guard(func() {
+				b := h.br[0]
+				for _, k := range keys {
+					h.opUpdate(b, k, detVal(r, 40+r.Intn(60)))
+				}
+				h.opCommit(b, true, true)
+				h.fullGets(b)
+				h.checkIter(b, b.s, "reopened")
+				for i, k := range keys {
+					switch i % 3 {
+					case 0:
+						h.opUpdate(b, k, detVal(r, 33+r.Intn(40)))
+					case 1:
+						h.opDelete(b, k)
+					}
+				}
+				h.opCommit(b, true, false)
+				h.fullGets(b)
+				h.opCommit(b, true, true)
+				h.fullGets(b)
+				h.checkRoot(b, b.s.hash(), "final-hash")
+				h.cnt["large_flushes_read_back"] += 3
 				done = true
 			})
 			if !done {
